@@ -910,3 +910,73 @@ Proof.
   - apply (G (fun p => snd p) zmin_list z zmin_list_in eq_refl).
   - apply (G (fun p => snd p) zmax_list z zmax_list_in eq_refl).
 Qed.
+
+(* ================================================================== Group.copy_from_extent on its children (composed operation) *)
+Lemma first_err_none {A} : forall (cs : list (res A)), first_err cs = None <-> forall c, In c cs -> exists x, c = Ok x.
+Proof.
+  induction cs as [|c r IH]; simpl; [split; [intros _ c []|reflexivity]|].
+  destruct c as [x|e]; split.
+  - intros H c [<-|Hc]; [eexists; reflexivity|apply IH; assumption].
+  - intros H. apply IH. intros c Hc. apply H. right. exact Hc.
+  - discriminate.
+  - intros H. destruct (H (Err e) (or_introl eq_refl)) as [x Hx]. discriminate.
+Qed.
+
+Lemma first_err_some {A} : forall (cs : list (res A)) e, first_err cs = Some e -> In (Err e) cs.
+Proof.
+  induction cs as [|c r IH]; intros e H; simpl in H; [discriminate|].
+  destruct c as [x|e']; [right; apply IH; exact H|injection H as <-; left; reflexivity].
+Qed.
+
+(* the group's copy by extent in terms of its children's own copy_from_extent *)
+Lemma group_copy_children cleanup children e inv :
+  let rs := map (fun o => child_copy_res o e inv) children in
+  (forall l, group_copy_run cleanup rs = GCopy l ->
+     (forall o, In o children -> forall er, copy_from_extent o e inv <> CErr er) /\ l <> [] /\
+     l = flat_map (fun o => match copy_from_extent o e inv with CCopy c => [c] | _ => [] end) children) /\
+  (group_copy_run cleanup rs = GNone ->
+     forall o, In o children -> copy_from_extent o e inv = CNone) /\
+  (forall er stray, group_copy_run cleanup rs = GFail er stray ->
+     stray = negb cleanup /\ exists o, In o children /\ copy_from_extent o e inv = CErr er).
+Proof.
+  cbv zeta. unfold group_copy_run.
+  assert (NE : first_err (map (fun o => child_copy_res o e inv) children) = None ->
+               forall o, In o children -> forall er, copy_from_extent o e inv <> CErr er).
+  { intros H o Ho er E.
+    destruct (proj1 (first_err_none _) H (child_copy_res o e inv) (in_map (fun o => child_copy_res o e inv) _ _ Ho)) as [x Hx].
+    unfold child_copy_res in Hx. rewrite E in Hx. discriminate. }
+  assert (FM : forall cs, flat_map (fun c : option obj => match c with Some x => [x] | None => [] end)
+                            (map ok_part (map (fun o => child_copy_res o e inv) cs)) =
+                          flat_map (fun o => match copy_from_extent o e inv with CCopy c => [c] | _ => [] end) cs).
+  { induction cs as [|o r IH]; [reflexivity|]. simpl. rewrite IH. unfold child_copy_res.
+    destruct (copy_from_extent o e inv); reflexivity. }
+  split; [|split].
+  - intros l. destruct (first_err _) eqn:F; [discriminate|].
+    unfold group_copy_from_extent. rewrite FM.
+    destruct (flat_map _ children) eqn:E; [discriminate|]. intros H; injection H as <-.
+    split; [apply NE; reflexivity|]. split; [discriminate|reflexivity].
+  - destruct (first_err _) eqn:F; [discriminate|]. unfold group_copy_from_extent. rewrite FM.
+    destruct (flat_map _ children) eqn:E; [|discriminate]. intros _ o Ho.
+    destruct (copy_from_extent o e inv) as [|c|er] eqn:C; [reflexivity| |exfalso; exact (NE eq_refl o Ho er C)].
+    exfalso. assert (In c (flat_map (fun o => match copy_from_extent o e inv with CCopy c => [c] | _ => [] end) children)).
+    { apply in_flat_map. exists o. split; [exact Ho|rewrite C; left; reflexivity]. }
+    rewrite E in H. contradiction.
+  - intros er stray. destruct (first_err _) eqn:F.
+    + intros H; injection H as <- <-. split; [reflexivity|].
+      apply first_err_some in F. apply in_map_iff in F as [o [Ho Hin]]. exists o. split; [exact Hin|].
+      unfold child_copy_res in Ho. destruct (copy_from_extent o e inv); try discriminate. injection Ho as ->. reflexivity.
+    + destruct (group_copy_from_extent _); discriminate.
+Qed.
+
+(* the repaired drillhole copy: copied exactly when the collar is selected *)
+Lemma drillhole_copy_fixed collar nv e inv :
+  drillhole_copy_from_extent true collar nv e inv =
+  match drillhole_mask collar e inv with
+  | Err er => Err er
+  | Ok None => Ok None
+  | Ok (Some _) => if xorb inv (in_box (coords collar) e) then Ok (Some true) else Ok None
+  end.
+Proof.
+  unfold drillhole_copy_from_extent. destruct (drillhole_mask collar e inv) as [[m|]|] eqn:M; try reflexivity.
+  apply located_mask_some in M. subst m. reflexivity.
+Qed.
